@@ -37,7 +37,9 @@ pub fn spell(base: &str, style: u8, tree: &Path) -> OsString {
         1 => format!("./{}", base).into(),
         2 => format!("{}/", base).into(),
         3 => format!("{}/.", base).into(),
-        4 => format!("{}/../{}", base, last).into(),
+        // (not when the root itself is a symlink: `link/..` is the parent of the link's target)
+        4 if !tree.join(base).symlink_metadata().map(|m| m.file_type().is_symlink()).unwrap_or(false) => format!("{}/../{}", base, last).into(),
+        4 => base.into(),
         5 => format!("../t/{}", base).into(),
         6 => tree.join(base).into_os_string(),
         7 => format!("L/{}", base).into(), // L -> . (directory symlink in the tree root)
